@@ -514,3 +514,29 @@ pub fn mv<T: ModelType>(json_text: &str) -> T {
 }
 /// an Option the derive macro cannot recognise by its spelling
 pub type Opt<T> = Option<T>;
+
+/// a bare var_u32 (hand-written codecs write line numbers etc. this way)
+#[derive(Debug, Clone, Copy, PartialEq, Eq, Hash, PartialOrd, Ord)]
+pub struct VarU32(pub u32);
+impl desert_core::BinarySerializer for VarU32 {
+    fn serialize<O: desert_core::BinaryOutput>(&self, ctx: &mut desert_core::SerializationContext<O>) -> desert_core::Result<()> {
+        use desert_core::BinaryOutput;
+        ctx.write_var_u32(self.0);
+        Ok(())
+    }
+}
+impl desert_core::BinaryDeserializer for VarU32 {
+    fn deserialize(ctx: &mut desert_core::DeserializationContext<'_>) -> desert_core::Result<Self> {
+        use desert_core::BinaryInput;
+        Ok(VarU32(ctx.read_var_u32()?))
+    }
+}
+impl ModelType for VarU32 {
+    fn from_model(v: &Value) -> Self {
+        let a = arr(v);
+        VarU32(((int(&a[1]) as u64) * (1 << 28) + int(&a[2]) as u64) as u32)
+    }
+    fn to_model(&self) -> Value {
+        json!([17, self.0 >> 28, self.0 & 0x0fff_ffff])
+    }
+}
